@@ -309,7 +309,7 @@ theorem inv_init : Inv {} := inv_norun rfl (by simp)
 
 theorem inv_reach {s : State} (h : Reach .fixed s) : Inv s := by
   induction h with
-  | init => exact inv_init
+  | init k => exact inv_norun rfl (by simp)
   | step e _ ih => exact inv_step ih e
 
 
